@@ -10,6 +10,8 @@
 (*             cache (FIFO eviction)              (route.GlobCache.Get)    *)
 (*   redirect  build the Location of a redirect route for THIS request     *)
 (*             (route.Table.Lookup + Target.BuildRedirectURL)              *)
+(*   access    decide whether THIS request's peer address is admitted by   *)
+(*             the route's access rules  (Target.AccessDeniedHTTP/TCP)     *)
 (*                                                                         *)
 (* FineGrain = TRUE models the unrepaired code's grain (cursor read and    *)
 (* increment as two steps; redirect URL written to and read back from the  *)
@@ -18,7 +20,7 @@
 (***************************************************************************)
 EXTENDS Integers, Sequences, FiniteSets
 
-CONSTANTS Procs, Ring, Patterns, Paths, CacheSize, MaxOps, FineGrain
+CONSTANTS Procs, Ring, Patterns, Paths, Addrs, CacheSize, MaxOps, FineGrain
 
 VARIABLES cursor, cache, shared, pend, nops, picks
 vars == <<cursor, cache, shared, pend, nops, picks>>
@@ -65,13 +67,22 @@ RedirRead(g)  == /\ FineGrain /\ pend[g].op = "redirect" /\ pend[g].res = "?" /\
                  /\ pend' = [pend EXCEPT ![g].res = shared]
                  /\ UNCHANGED <<cursor, cache, shared, nops, picks>>
 
+\* ---- access decision: a function of the request's own address and the (immutable) rules;
+\* addresses are named by their class: "in-<k>" lies in block k of the allow list, "out" in none
+Admitted(addr) == IF addr = "out" THEN "denied" ELSE "admitted"
+LinAccess(g) == /\ pend[g].op = "access" /\ pend[g].res = "?"
+                /\ pend' = [pend EXCEPT ![g].res = Admitted(pend[g].arg)]
+                /\ UNCHANGED <<cursor, cache, shared, nops, picks>>
+
 Ret(g) == /\ pend[g].op # "idle" /\ pend[g].res # "?" /\ (FineGrain /\ pend[g].op = "pick" => pend[g].tmp = 1)
           /\ pend' = [pend EXCEPT ![g] = Idle]
           /\ UNCHANGED <<cursor, cache, shared, nops, picks>>
 
 Next == \E g \in Procs :
           \/ Inv(g, "pick", "") \/ (\E p \in Patterns : Inv(g, "glob", p)) \/ (\E p \in Paths : Inv(g, "redirect", p))
-          \/ LinPick(g) \/ PickRead(g) \/ PickAdd(g) \/ LinGlob(g) \/ LinRedirect(g) \/ RedirWrite(g) \/ RedirRead(g) \/ Ret(g)
+          \/ (\E a \in Addrs : Inv(g, "access", a))
+          \/ LinPick(g) \/ PickRead(g) \/ PickAdd(g) \/ LinGlob(g) \/ LinRedirect(g) \/ RedirWrite(g) \/ RedirRead(g)
+          \/ LinAccess(g) \/ Ret(g)
 Spec == Init /\ [][Next]_vars
 
 -----------------------------------------------------------------------------
@@ -82,6 +93,7 @@ ExactShare == LET c == Len(picks) IN
               \A t \in Targets : Count(picks, t) = (c \div U) * Count(Ring, t) + Count(SubSeq(Ring, 1, c % U), t)
 \* the response to a redirect request depends on that request alone
 OwnLocation == \A g \in Procs : (pend[g].op = "redirect" /\ pend[g].res # "?") => pend[g].res = pend[g].arg
+OwnDecision == \A g \in Procs : (pend[g].op = "access" /\ pend[g].res # "?") => pend[g].res = Admitted(pend[g].arg)
 \* the cache stays within its size, holds no pattern twice
 CacheBounded == Len(cache) <= CacheSize /\ Cardinality(SeqToSet(cache)) = Len(cache)
 =============================================================================
